@@ -277,18 +277,25 @@ pub trait Language: Debug + Clone + Hash + Eq + Ord {
 
     #[doc(hidden)]
     fn private_slot_occurrences_mut(&mut self) -> Vec<&mut Slot> {
-        let public = self.public_slot_occurrences();
+        // An occurrence is private iff it is no public occurrence. This is decided by position, not by name:
+        // a bound slot may carry the same name as a free slot of the same node (shadowing).
+        let public: Vec<*const Slot> = self
+            .public_slot_occurrences_mut()
+            .into_iter()
+            .map(|x| &*x as *const Slot)
+            .collect();
         let mut out = self.all_slot_occurrences_mut();
-        out.retain(|x| !public.contains(x));
+        out.retain(|x| !public.contains(&(&**x as *const Slot)));
         out
     }
 
     #[doc(hidden)]
     fn private_slot_occurrences(&self) -> Vec<Slot> {
-        let public = self.public_slot_occurrences();
-        let mut out = self.all_slot_occurrences();
-        out.retain(|x| !public.contains(x));
-        out
+        let mut c = self.clone();
+        c.private_slot_occurrences_mut()
+            .into_iter()
+            .map(|x| *x)
+            .collect()
     }
 
     #[doc(hidden)]
